@@ -158,6 +158,29 @@ func init() {
 				}
 			}
 		}
+		if a.Lo == 0 {
+			// the documented names on the sub-directories (ExifTool: SubIFD2 holds the JpgFromRaw pointers, the
+			// others the preview image pointers); every other id is named as in IFD0
+			subs := []ifds.IfdType{ifds.SubIfd0, ifds.SubIfd1, ifds.SubIfd2, ifds.SubIfd3, ifds.SubIfd4, ifds.SubIfd5, ifds.SubIfd6, ifds.SubIfd7}
+			for _, it := range subs {
+				for id := 0; id < 65536; id++ {
+					want := ifds.IFD0.TagName(tag.ID(id))
+					switch {
+					case id == 0x0111 && it == ifds.SubIfd2:
+						want = "JpgFromRawStart"
+					case id == 0x0117 && it == ifds.SubIfd2:
+						want = "JpgFromRawLength"
+					case id == 0x0111:
+						want = "PreviewImageStart"
+					case id == 0x0117:
+						want = "PreviewImageLength"
+					}
+					if got, p := safeStr(func(int) string { return it.TagName(tag.ID(id)) }, 0); !p && got != want && len(bad) < 20 {
+						bad = append(bad, fmt.Sprintf("IfdType(%d).TagName(0x%04x) = %q, documented name %q", it, id, got, want))
+					}
+				}
+			}
+		}
 		JSON(obs, map[string]interface{}{"bad": bad, "empty": empty})
 	})
 }
